@@ -78,7 +78,7 @@ func (p *Program) ApplyLayout(prog *Program) {
 
 func (p *Program) ApplyComponent(name string, prog *Program, progFilePath string) *fail.Error {
 	for _, comp := range p.Components {
-		if comp.Name.Value != name {
+		if comp.Name.Value != name || comp.Block != nil {
 			continue
 		}
 
@@ -111,6 +111,8 @@ func (p *Program) ApplyComponent(name string, prog *Program, progFilePath string
 		}
 
 		comp.Block = prog
+
+		break
 	}
 
 	return nil
